@@ -361,7 +361,7 @@ func (fe *FnEnc) run() {
 	// obligation that cannot be discharged instead (vacuity guard)
 	if !fe.dry && fe.contract != nil {
 		for i := range fe.contract.Asserts {
-			if !fe.assertFired[i] && !fe.contract.Asserts[i].Forbid {
+			if !fe.assertFired[i] && !fe.contract.Asserts[i].Forbid && !fe.contract.Asserts[i].Assume {
 				as := &fe.contract.Asserts[i]
 				o := fe.addObl(st0, "assert", as.Label+":anchor-matches-no-call", fe.propsFor(&as.Clause), tFalse, fn.Pos())
 				if o != nil {
